@@ -437,6 +437,20 @@ func (m *Model) Apply(conn int, args [][]byte, now time.Time, got rd.Value) (boo
 		d.purge(now, dead)
 		r := h(c, d, conn, args, now)
 		ok, why := r.Check(got)
+		if !ok && r.Desc == "WRONGTYPE error" && got.Kind == rd.Error {
+			// The reference checks some arguments before it looks at the key.
+			// When the command is also wrong for an argument-level reason (it
+			// errors even with the key absent) either error is acceptable.
+			c2 := m.Clone()
+			d2 := c2.db(conn)
+			d2.purge(now, dead)
+			for _, a := range args[1:] {
+				delete(d2.Keys, string(a))
+			}
+			if r2 := h(c2, d2, conn, args, now); strings.HasPrefix(r2.Desc, "error") {
+				ok = true
+			}
+		}
 		if ok {
 			*m = *c
 			return true, ""
